@@ -1059,3 +1059,60 @@ def lowestdigit(facts: CppFacts):
     res.samples = ["lowest() case followed for int8/16/32/64 x base 2/10/16"]
     res.analysed = [TU]
     return res
+
+
+def enumtext(facts: CppFacts):
+    """R-ENUMTEXT (C19/C06): an enum field can hold any value of its (possibly unsigned 64-bit) underlying type, and the
+    writer prints unnamed values as numbers.  The reader must therefore decode a number that starts with a digit into an
+    unsigned 64-bit variable and only numbers that start with `-` into a signed one; decoding both into int64_t rejects
+    [2^63, 2^64), decoding both into uint64_t rejects negatives."""
+    res = RuleResult("R-ENUMTEXT")
+    TU = "runtime/cpp/emboss_text_util.h"
+    fn = [f for f in facts.functions if f.name == "ReadEnumViewFromTextStream"]
+    if not fn:
+        raise AnalysisError("ReadEnumViewFromTextStream not found")
+    body = _CM.sub("", fn[0].body)
+    # branches: condition text -> declared type of the variable passed to DecodeInteger
+    branches = []
+    for m in re.finditer(r"if\s*\(", body):
+        # balanced condition
+        i = m.end() - 1
+        depth = 0
+        j = i
+        while j < len(body):
+            if body[j] == "(":
+                depth += 1
+            elif body[j] == ")":
+                depth -= 1
+                if depth == 0:
+                    break
+            j += 1
+        cond = body[i + 1:j]
+        if not re.match(r"\s*\{", body[j + 1:]):
+            continue
+        b0, e0 = _block_after(body, j)
+        blk = body[b0:e0]
+        dm = re.search(r"DecodeInteger\s*\(\s*\w+\s*,\s*&\s*(\w+)\s*\)", blk)
+        if not dm:
+            continue
+        tm = re.search(r"((?:::)?std::)?(u?int\d+_t)\s+" + re.escape(dm.group(1)) + r"\s*;", blk)
+        branches.append((" ".join(cond.split()), tm.group(2) if tm else None))
+    res.instances += 2
+    digit = [t for c, t in branches if "isdigit" in c and "'-'" not in c]
+    minus = [t for c, t in branches if "'-'" in c and "isdigit" not in c]
+    merged = [(c, t) for c, t in branches if "isdigit" in c and "'-'" in c]
+    if merged:
+        c, t = merged[0]
+        res.add(f"{TU}|ReadEnumViewFromTextStream|merged", f"numbers starting with a digit and numbers starting with `-` are decoded by one branch "
+                f"(`{c}`) into {t}: {'values from 2^63 to 2^64-1 of an unsigned 64-bit enum' if t == 'int64_t' else 'negative values of a signed enum'} "
+                "are rejected when read from text, although the writer prints them", TU, fn[0].line, "ReadEnumViewFromTextStream")
+    else:
+        if digit != ["uint64_t"]:
+            res.add(f"{TU}|ReadEnumViewFromTextStream|digits", f"numbers starting with a digit are decoded into {digit or 'nothing'}, not uint64_t",
+                    TU, fn[0].line, "ReadEnumViewFromTextStream")
+        if minus != ["int64_t"]:
+            res.add(f"{TU}|ReadEnumViewFromTextStream|negative", f"numbers starting with `-` are decoded into {minus or 'nothing'}, not int64_t",
+                    TU, fn[0].line, "ReadEnumViewFromTextStream")
+    res.samples = [f"branches: {branches}"]
+    res.analysed = [TU]
+    return res
